@@ -114,7 +114,9 @@ func enumCore(ex exclusions, rec *ev.Rec, yield func(Case) bool) {
 								uses = append(uses, useSpec{name: set[0], place: other, fallback: fallback})
 							}
 							c := Case{Comps: map[string]Comp{}, Data: fixedData(variant), Compact: variant%3 == 0}
-							c.Comps[ci.file] = b.leaf(ci, uses, variant%2 == 0, nil, []string{"div", "div", "flat", "template", "div"}[variant%5])
+							shape := []string{"div", "div", "flat", "template", "div"}[variant%5]
+							b.pageIfOnly = ex.tmplRoot && shape == "template"
+							c.Comps[ci.file] = b.leaf(ci, uses, variant%2 == 0, nil, shape)
 							var insts []Node
 							for inst := 0; inst < 2; inst++ {
 								var plans []supplyPlan
@@ -129,6 +131,9 @@ func enumCore(ex exclusions, rec *ev.Rec, yield func(Case) bool) {
 								insts = append(insts, b.instance(ci, inst, false, plans, ex, rec, nil))
 							}
 							c.Page = page(b, insts)
+							if b.dropped > 0 && rec != nil {
+								rec.Excluded("C06-template-root-evaluated-twice")
+							}
 							if !yield(c) {
 								return
 							}
@@ -223,18 +228,27 @@ func genCase(t *rapid.T, ex exclusions, rec *ev.Rec) Case {
 	elem := rapid.SampledFrom([]string{"s", "m"}).Draw(t, "elem")
 	c := Case{Comps: map[string]Comp{}, Data: genData(t), Compact: rapid.IntRange(0, 3).Draw(t, "compact") == 0}
 
+	sh := []string{rapid.SampledFrom(shapes).Draw(t, "shape1"), rapid.SampledFrom(shapes).Draw(t, "shape2"), rapid.SampledFrom(shapes).Draw(t, "shape3")}
+	hasK2, hasK3 := rapid.Bool().Draw(t, "k2"), rapid.IntRange(0, 2).Draw(t, "outer") == 0
+	b.pageIfOnly = ex.tmplRoot && (sh[0] == "template" || hasK2 && sh[1] == "template" || hasK3 && sh[2] == "template")
+	defer func() {
+		if b.dropped > 0 {
+			rec.Excluded("C06-template-root-evaluated-twice")
+		}
+	}()
+
 	k1, u1 := genLeafInfo(t, 1, elem)
-	c.Comps[k1.file] = b.leaf(k1, u1, rapid.Bool().Draw(t, "fm1"), nil, rapid.SampledFrom(shapes).Draw(t, "shape1"))
+	c.Comps[k1.file] = b.leaf(k1, u1, rapid.Bool().Draw(t, "fm1"), nil, sh[0])
 	avail := []compInfo{k1}
 	leaves := []compInfo{k1}
-	if rapid.Bool().Draw(t, "k2") {
+	if hasK2 {
 		k2, u2 := genLeafInfo(t, 2, elem)
-		c.Comps[k2.file] = b.leaf(k2, u2, rapid.Bool().Draw(t, "fm2"), nil, rapid.SampledFrom(shapes).Draw(t, "shape2"))
+		c.Comps[k2.file] = b.leaf(k2, u2, rapid.Bool().Draw(t, "fm2"), nil, sh[1])
 		avail = append(avail, k2)
 		leaves = append(leaves, k2)
 	}
-	if rapid.IntRange(0, 2).Draw(t, "outer") == 0 {
-		k3 := genOuter(t, b, &c, leaves, elem, ex, rec)
+	if hasK3 {
+		k3 := genOuter(t, b, &c, leaves, elem, sh[2], ex, rec)
 		avail = append(avail, k3, k3) // prefer the nested one when it exists
 	}
 
@@ -341,7 +355,7 @@ func namedSupplies(nodes []Node, into map[string]bool) {
 // genOuter builds k3: a component with (possibly) slots of its own whose body includes a leaf
 // component and supplies content to it; that content may contain k3's own <slot> elements
 // (forwarding what k3's includer supplied into the inner component).
-func genOuter(t *rapid.T, b *builder, c *Case, leaves []compInfo, elem string, ex exclusions, rec *ev.Rec) compInfo {
+func genOuter(t *rapid.T, b *builder, c *Case, leaves []compInfo, elem, shape string, ex exclusions, rec *ev.Rec) compInfo {
 	inner := leaves[rapid.IntRange(0, len(leaves)-1).Draw(t, "outer-inner")]
 	k3 := compInfo{idx: 3, file: "k3.vuego", elem: elem, slots: map[string]slotInfo{}, multi: map[string]bool{}}
 	fm := rapid.Bool().Draw(t, "fm3")
@@ -428,6 +442,6 @@ func genOuter(t *rapid.T, b *builder, c *Case, leaves []compInfo, elem string, e
 			k3.innerOpen = append(k3.innerOpen, name)
 		}
 	}
-	c.Comps[k3.file] = b.leaf(k3, uses, fm, []Node{inc}, rapid.SampledFrom(shapes).Draw(t, "shape3"))
+	c.Comps[k3.file] = b.leaf(k3, uses, fm, []Node{inc}, shape)
 	return k3
 }
